@@ -334,7 +334,9 @@ def run(ctx):
     r = common.rng("c13")
     ctx.cov["trusted_base"] = [
         "Lean 4.33.0 kernel; axioms within {propext, Classical.choice, Quot.sound}",
-        "hand-written model Model/Lines.lean of util.write_continue/write_lines, tied by differential correspondence",
+        "hand-written model Model/Lines.lean of util.write_continue / write_lines / write_output_file / _literal_lines, tied by differential correspondence",
+        "tools/extract_linecfg.py (AST scans: each emitter's line-length option and continuation marker, branches of _create_splicer, "
+        "comma-list join sites of wrapf.py; option defaults read from a fresh LibraryNode)",
         "Python str.lstrip/isspace modelled on ASCII + U+0085/U+00A0 code points only",
     ]
     ctx.cov["rule"] = ("write_continue: corpus + every string over the directive/hint alphabet up to a length bound x line lengths "
